@@ -39,6 +39,8 @@ pub struct SysFault {
 
 thread_local! {
     static PENDING: std::cell::Cell<Option<SysFault>> = const { std::cell::Cell::new(None) };
+    /// operations of each kind marked so far in the open window
+    static KIND_COUNTS: std::cell::Cell<[u32; 5]> = const { std::cell::Cell::new([0; 5]) };
 }
 
 pub const FAILING_KINDS: [SysKind; 9] = [
@@ -169,6 +171,7 @@ pub fn arm(artifact_dir: &std::path::Path, fault: Option<SysFault>) {
     };
     let dir = CString::new(artifact_dir.to_str().expect("utf8 path")).unwrap();
     PENDING.with(|p| p.set(None));
+    KIND_COUNTS.with(|c| c.set([0; 5]));
     let (at, (k, e, p)) = match fault {
         Some(f) if f.op.is_some() => {
             // decided when the writer reaches that operation (see `mark`)
@@ -202,7 +205,23 @@ pub fn mark(op_index: usize, text: &str) {
             unsafe { (api.mark)(op_index as c_long, c.as_ptr()) };
         }
         if let Some(f) = PENDING.with(|p| p.get()) {
-            if f.op == Some(op_index as u32) {
+            // `op` below 1000: the index of the operation; 1000*k + n: the n-th operation of kind
+            // k (1 DeleteFile, 2 DeleteDirectory, 3 CreateDirectory, 4 WriteFile) of this compile
+            let kind = match text.split('(').next().unwrap_or("") {
+                "DeleteFile" => 1usize,
+                "DeleteDirectory" => 2,
+                "CreateDirectory" => 3,
+                "WriteFile" => 4,
+                _ => 0,
+            };
+            let nth = KIND_COUNTS.with(|c| {
+                let mut c = c.get();
+                let n = c[kind];
+                c[kind] += 1;
+                KIND_COUNTS.with(|cc| cc.set(c));
+                n
+            });
+            if f.op == Some(op_index as u32) || (kind != 0 && f.op == Some((1000 * kind) as u32 + nth)) {
                 PENDING.with(|p| p.set(None));
                 let (k, e, p) = f.kind.encode();
                 unsafe { (api.set_relative)(f.at as c_long, k, e, p) };
